@@ -169,6 +169,64 @@ fn check_deviation_row(c: &DeviationBlock) -> Verdict {
     Verdict::Pass(Pass::new("single-deviation-row", nondata > 0).count("single_deviations", sym.cols as u64).count("non_data_deviations_rejected", nondata))
 }
 
+/// structured deviations: a whole row or column of a valid rendering rewritten at once (phase of a
+/// clock track inverted, a solid bar replaced, a line shifted) - deviations that no enumeration of
+/// single modules and no handful of random flips reaches
+#[derive(Debug, Clone)]
+pub struct LineDeviation {
+    pub sym: usize,
+    pub column: bool,
+    pub index: usize,
+}
+
+impl Case for LineDeviation {
+    fn to_json(&self) -> Value {
+        json!({"size": SYMBOLS[self.sym].name, "line": if self.column { "column" } else { "row" }, "index": self.index})
+    }
+}
+
+pub fn line_variant(base: &[bool], lay: &[ModuleKind], w: usize, h: usize, column: bool, index: usize, variant: usize) -> Vec<bool> {
+    let n = if column { h } else { w };
+    let at = |k: usize| if column { k * w + index } else { index * w + k };
+    let mut bits = base.to_vec();
+    for k in 0..n {
+        let i = at(k);
+        let nondata = !matches!(lay[i], ModuleKind::Data(..));
+        bits[i] = match variant {
+            0 => !base[i],                          // whole line inverted
+            1 => if nondata { !base[i] } else { base[i] }, // only the finder / clock / alignment modules of the line inverted
+            2 => true,                              // solid dark
+            3 => false,                             // all light
+            4 => base[at((k + 1) % n)],             // shifted by one module
+            5 => k % 2 == 0,                        // alternating, starting dark
+            _ => k % 2 == 1,                        // alternating, starting light
+        };
+    }
+    bits
+}
+
+fn check_line_deviation(c: &LineDeviation) -> Verdict {
+    let sym = &SYMBOLS[c.sym];
+    let cw: Vec<u8> = (0..sym.total()).map(|i| (i as u32 * 151 + c.index as u32 * 11 + 3) as u8).collect();
+    let base = place::render(sym, &cw);
+    let lay = place::layout(sym);
+    let mut rejected = 0;
+    for variant in 0..7 {
+        let bits = line_variant(&base, &lay, sym.cols, sym.rows, c.column, c.index, variant);
+        let case = BitmapCase { width: sym.cols, bits, stratum: "line-deviation" };
+        match check_converse(&case) {
+            Verdict::Pass(p) => {
+                if p.nontrivial {
+                    rejected += 1;
+                }
+            }
+            Verdict::Fail(r) => return fail(format!("{} {} rewritten (variant {}): {}", if c.column { "column" } else { "row" }, c.index, variant, r)),
+            other => return other,
+        }
+    }
+    Verdict::Pass(Pass::new("line-deviation", rejected > 0).count("line_deviations", 7).count("line_deviations_rejected", rejected))
+}
+
 fn g_forward() -> BoxedStrategy<CwCase> {
     (any::<u16>(), any::<u64>(), any::<u16>())
         .prop_map(|(s, seed, k)| {
@@ -198,6 +256,22 @@ fn g_converse() -> BoxedStrategy<BitmapCase> {
                 bits[i] = !bits[i];
             }
             BitmapCase { width: sym.cols, bits, stratum: "multi-deviation" }
+        }),
+        // valid rendering with one or two whole lines rewritten (plus possibly a module flip)
+        3 => (any::<u16>(), any::<u64>(), vec((any::<bool>(), any::<u16>(), 0usize..7), 1..=2), any::<u16>(), any::<bool>()).prop_map(|(s, seed, lines, p, flip)| {
+            let sym = &SYMBOLS[pick(s, 48)];
+            let cw = expand(seed, sym.total());
+            let mut bits = place::render(sym, &cw);
+            let lay = place::layout(sym);
+            for (column, idx, variant) in lines {
+                let n = if column { sym.cols } else { sym.rows };
+                bits = line_variant(&bits, &lay, sym.cols, sym.rows, column, pick(idx, n), variant);
+            }
+            if flip {
+                let i = pick(p, bits.len());
+                bits[i] = !bits[i];
+            }
+            BitmapCase { width: sym.cols, bits, stratum: "line-deviation" }
         }),
         // real dimensions, random content / random content with a correct outer frame
         2 => (any::<u16>(), any::<u64>(), any::<bool>()).prop_map(|(s, seed, frame)| {
@@ -242,6 +316,16 @@ fn run(ctx: &Arc<Ctx>) {
         }
     }
     ctx.run_enumerated("single-deviations", "devrow", rows, Some("every single-module deviation of a valid rendering of every size (sum of rows x cols arrays)"), check_deviation_row);
+    let mut lines = Vec::new();
+    for (i, s) in SYMBOLS.iter().enumerate() {
+        for r in 0..s.rows {
+            lines.push(LineDeviation { sym: i, column: false, index: r });
+        }
+        for c in 0..s.cols {
+            lines.push(LineDeviation { sym: i, column: true, index: c });
+        }
+    }
+    ctx.run_enumerated("line-deviations", "devline", lines, Some("every row and every column of a valid rendering of every size rewritten in 7 ways (inverted, non-data modules inverted, dark, light, shifted, alternating in both phases)"), check_line_deviation);
     ctx.run_generated("converse", "bitmap", ctx.cases(300_000, 5_000_000), g_converse, check_converse);
 }
 
@@ -249,6 +333,7 @@ fn replay(_ctx: &Ctx, kind: &str, case: &Value) -> Option<Verdict> {
     match kind {
         "cw" => Some(check_forward(&CwCase::from_json(case)?)),
         "bitmap" => Some(check_converse(&BitmapCase::from_json(case)?)),
+        "devline" => Some(check_line_deviation(&LineDeviation { sym: refimpl::table::index_of(case["size"].as_str()?)?, column: case["line"] == "column", index: case["index"].as_u64()? as usize })),
         "devrow" => Some(check_deviation_row(&DeviationBlock { sym: refimpl::table::index_of(case["size"].as_str()?)?, row: case["row"].as_u64()? as usize })),
         _ => None,
     }
